@@ -425,8 +425,12 @@ func (rr *readerRun) opPre(p []string) bool {
 			return false
 		}
 		if c.block {
-			// BlockReader.Value ignores seg.Padding/ForceNewline and works line by line (status_C18.md)
-			return !s.ForceNewline && blockValuePre(c, s)
+			// BlockReader.Value works line by line and ignores seg.Padding/ForceNewline (status_C18.md): the segment
+			// must start inside the block; inside one line it must carry the padding that stands at its start
+			if s.ForceNewline || len(c.lines) == 0 || s.Start < c.lines[0].start {
+				return false
+			}
+			return blockValueMulti(c, s) || blockValuePre(c, s)
 		}
 		return true
 	}
@@ -685,6 +689,10 @@ func (rr *readerRun) step(op string) (out string, ok bool) {
 			if s.ForceNewline && len(want) > 0 && want[len(want)-1] != '\n' {
 				want = append(want, '\n')
 			}
+			if c.block && !blockValuePre(c, s) {
+				// the segment runs on over later block lines: each later line contributes its padding and its bytes
+				want = blockValueSpec(c, s)
+			}
 			cmp("value", out, hxn(want))
 		}
 	case "ss":
@@ -770,18 +778,66 @@ func (rr *readerRun) step(op string) (out string, ok bool) {
 	return out, true
 }
 
-// blockValuePre: BlockReader.Value(seg) is the segment's own value only when seg lies inside one block
-// line and carries that line's padding (Value ignores seg.Padding and uses the line's).
-func blockValuePre(c *specCursor, s text.Segment) bool {
-	for j, l := range c.lines {
-		if l.start <= s.Start && s.Stop <= l.stop && s.Start <= s.Stop {
-			if j+1 < len(c.lines) && s.Start >= c.lines[j+1].start {
-				continue
-			}
-			return l.pad == s.Padding
+// blockLineOf: the block line in which position p lies (the last line starting at or before p), -1 if none
+func blockLineOf(c *specCursor, p int) int {
+	j := -1
+	for i, l := range c.lines {
+		if l.start <= p {
+			j = i
 		}
 	}
-	return false
+	return j
+}
+
+// blockValuePre: BlockReader.Value(seg) is the segment's own value when seg lies inside one block line and
+// either starts at the line's first byte with the line's padding, or starts inside the line with padding 0
+// (since 96b5bf4 the line's padding is only put in front of the line's first byte).
+func blockValuePre(c *specCursor, s text.Segment) bool {
+	j := blockLineOf(c, s.Start)
+	if j < 0 || s.Start > s.Stop || s.Stop > c.lines[j].stop {
+		return false
+	}
+	l := c.lines[j]
+	if s.Start == l.start {
+		return s.Padding == l.pad
+	}
+	return s.Padding == 0
+}
+
+// blockValueMulti: seg starts in a block line and runs on past its end (labels / titles spanning lines);
+// its padding is not looked at
+func blockValueMulti(c *specCursor, s text.Segment) bool {
+	j := blockLineOf(c, s.Start)
+	return j >= 0 && s.Start <= s.Stop && s.Stop > c.lines[j].stop
+}
+
+// blockValueSpec: the meaning of BlockReader.Value for a segment spanning block lines: the first line gives its
+// padding only if seg starts at its first byte, then its bytes from seg.Start; every later line that begins
+// before seg.Stop is reached gives its padding and its bytes (up to seg.Stop)
+func blockValueSpec(c *specCursor, s text.Segment) []byte {
+	j := blockLineOf(c, s.Start)
+	out := []byte{}
+	from := s.Start
+	for ; j < len(c.lines); j++ {
+		l := c.lines[j]
+		if from == l.start {
+			out = append(out, strings.Repeat(" ", l.pad)...)
+		}
+		to := l.stop
+		if s.Stop < to {
+			to = s.Stop
+		}
+		if from < to {
+			out = append(out, c.src[from:to]...)
+		}
+		if l.stop >= s.Stop {
+			break
+		}
+		if j+1 < len(c.lines) {
+			from = c.lines[j+1].start
+		}
+	}
+	return out
 }
 
 // helperTerminates replays the calls made so far on a second reader and runs a bounded skeleton of the
@@ -1032,6 +1088,12 @@ func (rr *readerRun) candidateOps(rng *RNG, few bool) []string {
 			"rs:"+strconv.Itoa(rng.Intn(3)), "rp",
 			fmt.Sprintf("fc:%d:%d:%d", []int{91, 96, 40}[rng.Intn(3)], []int{93, 96, 41}[rng.Intn(3)], rng.Intn(16)),
 			fmt.Sprintf("fc:91:93:%d", rng.Intn(16)))
+		if c.block && len(c.lines) > 0 {
+			l := c.lines[rng.Intn(len(c.lines))]
+			a := l.start + rng.Intn(l.stop-l.start+1)
+			b := a + rng.Intn(len(c.src)+1-a)
+			ops = append(ops, fmt.Sprintf("va:%d:%d:0:0", a, b), fmt.Sprintf("va:%d:%d:%d:0", l.start, l.stop, l.pad))
+		}
 		if len(c.src) > 0 {
 			a := rng.Intn(len(c.src) + 1)
 			b := a + rng.Intn(len(c.src)+1-a)
